@@ -33,6 +33,7 @@ class Session(object):
         self.last_reported = {}  # in-flight key -> last non-final status reported
         self.tags = []           # parallel to trace: what provider operation each call belongs to
         self.inflight_log = []   # parallel to trace: in-flight set right after the call
+        self.active_log = []     # ... of those, the ones whose last report is not paused / pending (dormant)
 
     def close(self):
         if self.model:
@@ -48,6 +49,8 @@ class Session(object):
         a = self.impl.apply(op)
         self.tags.append(tag)
         self.inflight_log.append(sorted(self.inflight, key=repr))
+        self.active_log.append(sorted((k for k in self.inflight if self.last_reported.get(k) not in ("paused", "pending")),
+                                      key=repr))
         if self.model is not None:
             b = self.model.apply(op)
             d = self.compare(a, b)
@@ -92,6 +95,10 @@ class Session(object):
         """Report a status for an in-flight action; completed statuses leave the set."""
         t, r, item = key
         # an action that reported paused or resuming runs again before it can complete (provider protocol)
+        if getattr(self, "cancel_dormant", False) and self.last_reported.get(key) == "paused" \
+                and status in ("succeeded", "failed", "timeout", "abandoned") \
+                and self.status() in ("canceling", "canceled", "failed", "succeeded"):
+            status, result = "canceled", None      # a paused action of a workflow that is over is canceled, not resumed
         if self.last_reported.get(key) in ("paused", "resuming") and status in ("succeeded", "failed", "timeout", "abandoned"):
             self.last_reported[key] = "running"
             if item is None:
